@@ -32,7 +32,7 @@ def Hyp (m : HArrow O A) : Prop :=
   m.source.wf = true ∧ m.target.wf = true ∧ m.w.WF ∧ m.x.WF
 
 theorem Hyp.toWf {m : HArrow O A} (h : Hyp m) : m.Wf :=
-  ⟨(HG.wf_iff _).1 h.1, (HG.wf_iff _).1 h.2.1, h.2.2.1, h.2.2.2⟩
+  ⟨(HG.wf_iff_Wf _).1 h.1, (HG.wf_iff_Wf _).1 h.2.1, h.2.2.1, h.2.2.2⟩
 
 /-! ## the monomorphism test -/
 
